@@ -95,6 +95,13 @@ def normalize (ord : NormOrd) (w : List Rat) : List Rat :=
   | .linf => let n := normInf w; let n' := if n < normEps then 1 else n; w.map (· / n')
   | _ => w
 
+/-- the guard `tf.norm(w, ord=2) < _NORMALIZATION_EPS` of the order-2 normalisation decided WITHOUT a
+root: `√s < ε ⇔ s < ε²` for `s ≥ 0`, `ε > 0` (`Tfl.C06.l2Skips_iff`, Props/C06Compose.lean). The
+order-2 normalised column itself, `w / √(normSq w)`, is irrational in general and is not computed by
+the model: `normalize .l2` returns the column as it is and the claims about the real result are
+proved for every positive scaling factor (ℚ) and for the factor `√(normSq w)` over ℝ. -/
+def l2Skips (w : List Rat) : Bool := decide (normSq w < normEps * normEps)
+
 def project (monos : List Int) (monoDom rangeDom : Pairs) (los his : List (Option Rat))
     (ord : NormOrd) (w : List Rat) : Except Err (List Rat) :=
   (projectPre monos monoDom rangeDom los his w).map (normalize ord)
